@@ -763,15 +763,21 @@ fn start_incarnation(
     };
     let channels = AgentRouteChannels::new(att_rx, http_rx, link_tx);
     let end: Rc<RefCell<Option<AgentEnd>>> = Rc::new(RefCell::new(None));
-    let fut: Pin<Box<dyn Future<Output = Result<(), AgentExecError>>>> = if let Some(plan) = sc.fake.clone() {
+    let fut: Pin<Box<dyn Future<Output = Result<(), AgentExecError>>>> = if sc.fake.is_some() || sc.fake_persist.is_some() {
         let agent = super::fake::FakeAgent {
             truth: truth.clone(),
-            plan: if epoch == 0 { Some(plan) } else { None },
+            plan: if epoch == 0 { sc.fake.clone() } else { None },
+            persist: sc.fake_persist.clone(),
             lane_in_buf: k.lane_in_buf as usize,
             lane_out_buf: k.lane_out_buf as usize,
         };
         let task = AgentRouteTask::new(&agent, descriptor, channels, stop_rx, config, reporting);
-        Box::pin(task.run_agent())
+        if k.persistent {
+            let store = RecordingStore::new(durable.clone());
+            Box::pin(task.run_agent_with_store(async move { Ok::<_, StoreError>(store) }))
+        } else {
+            Box::pin(task.run_agent())
+        }
     } else if k.persistent {
         let store = RecordingStore::new(durable.clone());
         let task = AgentRouteTask::new(&model, descriptor, channels, stop_rx, config, reporting);
